@@ -40,6 +40,9 @@ Op(t, St, e) ==
     IN CASE e.op = "set" -> [S |-> Set(St, k, e.a.v, 0, Ttl(t, e.a.tm), NoTag, e.now).S, ret |-> RNone, judged |-> FALSE]
          [] e.op = "add" -> J(Add(St, k, e.a.v, 0, Ttl(t, e.a.tm), NoTag, e.now))
          [] e.op = "get" -> LET r == Get(St, k, FF, "miss", e.now) IN [S |-> St, ret |-> Val(r), judged |-> TRUE]
+         \* extension: read(key, version) is the lookup that raises KeyError for an absent key
+         [] e.op = "read" -> LET r == Get(St, k, FF, "miss", e.now) IN
+                             [S |-> St, ret |-> IF r.ret.k = "val" THEN Val(r) ELSE RExc("KeyError"), judged |-> TRUE]
          [] e.op = "touch" -> J(Touch(St, k, Ttl(t, e.a.tm), e.now))
          [] e.op = "delete" -> \* deleting an expired, not yet removed item: the contract leaves the return value open
                                [S |-> Delete(St, k, "false", e.now).S, ret |-> Delete(St, k, "false", e.now).ret,
